@@ -775,6 +775,112 @@ func structuredCase(t *mon.T) {
 	}
 }
 
+// nilAndMalformedCase: the printing methods on a nil receiver and the decoders
+// on malformed input, which math/big defines too (a nil *big.Int prints as
+// "<nil>", marshals to "<nil>"/null/empty; a decoder that fails reports an
+// error). The rendering, the error presence and - where math/big leaves the
+// receiver defined - the value must agree.
+func nilAndMalformedCase(t *mon.T) {
+	r := t.Rng
+	var an *apd.BigInt
+	var bn *big.Int
+	guard := func(f func() string) (out string) {
+		defer func() {
+			if p := recover(); p != nil {
+				out = fmt.Sprint("PANIC: ", p)
+			}
+		}()
+		return f()
+	}
+	cmp := func(what, a, b string) {
+		t.Eval()
+		if a != b {
+			t.Fail("bigint-differs-from-mathbig", map[string]interface{}{"call": what, "apd": abbrevS(a), "mathbig": abbrevS(b)})
+		}
+	}
+	base := 2 + r.Intn(61)
+	verbs := []string{"%v", "%d", "%x", "%X", "%o", "%b", "%s", "%10d", "%-8x|", "%+d", "%#x", "%08d", "% d", "%q", "%e"}
+	verb := verbs[r.Intn(len(verbs))]
+	cmp("nil.String", guard(func() string { return an.String() }), guard(func() string { return bn.String() }))
+	cmp("nil.Text", guard(func() string { return an.Text(base) }), guard(func() string { return bn.Text(base) }))
+	cmp("nil.Append", guard(func() string { return string(an.Append([]byte("x"), base)) }), guard(func() string { return string(bn.Append([]byte("x"), base)) }))
+	cmp("nil.Format "+verb, guard(func() string { return fmt.Sprintf(verb, an) }), guard(func() string { return fmt.Sprintf(verb, bn) }))
+	cmp("nil.MarshalText", guard(func() string { b, e := an.MarshalText(); return fmt.Sprint(string(b), e) }), guard(func() string { b, e := bn.MarshalText(); return fmt.Sprint(string(b), e) }))
+	cmp("nil.MarshalJSON", guard(func() string { b, e := an.MarshalJSON(); return fmt.Sprint(string(b), e) }), guard(func() string { b, e := bn.MarshalJSON(); return fmt.Sprint(string(b), e) }))
+	cmp("nil.GobEncode", guard(func() string { b, e := an.GobEncode(); return fmt.Sprint(b, e) }), guard(func() string { b, e := bn.GobEncode(); return fmt.Sprint(b, e) }))
+	// the same verbs on ordinary values
+	v := bigValue(r)
+	av := new(apd.BigInt).SetMathBigInt(v)
+	cmp("Format "+verb, guard(func() string { return fmt.Sprintf(verb, av) }), guard(func() string { return fmt.Sprintf(verb, v) }))
+	// decoders on malformed input: a valid encoding damaged in one place, or random bytes
+	start := bigValue(r)
+	mkA := func() *apd.BigInt { return new(apd.BigInt).SetMathBigInt(start) }
+	mkB := func() *big.Int { return new(big.Int).Set(start) }
+	damage := func(b []byte) []byte {
+		b = append([]byte{}, b...)
+		switch r.Intn(5) {
+		case 0:
+			if len(b) > 0 {
+				b[r.Intn(len(b))] ^= byte(1 + r.Intn(255))
+			}
+		case 1:
+			b = b[:r.Intn(len(b)+1)]
+		case 2:
+			b = append(b, byte(r.U64()))
+		case 3:
+			b = make([]byte, r.Intn(6))
+			for i := range b {
+				b[i] = byte(r.U64())
+			}
+		}
+		return b
+	}
+	src := bigValue(r)
+	gob, _ := src.GobEncode()
+	gob = damage(gob)
+	{
+		a, b := mkA(), mkB()
+		ea, eb := a.GobDecode(gob), b.GobDecode(gob)
+		cmp("GobDecode(damaged) error", fmt.Sprint(ea != nil), fmt.Sprint(eb != nil))
+		if ea == nil && eb == nil {
+			cmp("GobDecode(damaged) value", a.String(), b.String())
+		}
+	}
+	txt := damage([]byte(src.Text(10)))
+	{
+		a, b := mkA(), mkB()
+		ea, eb := a.UnmarshalText(txt), b.UnmarshalText(txt)
+		cmp("UnmarshalText(damaged) error", fmt.Sprint(ea != nil), fmt.Sprint(eb != nil))
+		if ea == nil && eb == nil {
+			cmp("UnmarshalText(damaged) value", a.String(), b.String())
+		}
+		a, b = mkA(), mkB()
+		js := txt
+		if r.Chance(1, 4) {
+			js = [][]byte{[]byte("null"), []byte(""), []byte("\"12\""), []byte(" 7"), []byte("1e3"), []byte("0x10"), []byte("-"), []byte("+5")}[r.Intn(8)]
+		}
+		ea, eb = a.UnmarshalJSON(js), b.UnmarshalJSON(js)
+		cmp("UnmarshalJSON(damaged) error", fmt.Sprint(ea != nil), fmt.Sprint(eb != nil))
+		if ea == nil && eb == nil {
+			cmp("UnmarshalJSON(damaged) value", a.String(), b.String())
+		}
+		a, b = mkA(), mkB()
+		sb := 0
+		if r.Bool() {
+			sb = []int{2, 8, 10, 16, 36, 62, 1, 63, -1}[r.Intn(9)]
+		}
+		var oka, okb bool
+		pa := guard(func() string { _, oka = a.SetString(string(txt), sb); return "" })
+		pb := guard(func() string { _, okb = b.SetString(string(txt), sb); return "" })
+		cmp("SetString(damaged) ok", fmt.Sprint(oka, pa != ""), fmt.Sprint(okb, pb != ""))
+		if oka && okb {
+			cmp("SetString(damaged) value", a.String(), b.String())
+		}
+	}
+	t.Count("nil-and-malformed")
+	t.Nontrivial(fmt.Sprintf("nm|%s|%x|%s", verb, gob, txt))
+}
+
 func runC16(r *mon.Run) {
 	r.Rule = "lock-step model-based monitor: pools of 6 apd.BigInt slots mirrored by math/big.Int; sequences of 30-200 calls drawn from " +
 		fmt.Sprint(len(bigMethods)) + " method groups (arithmetic, bitwise, shifts, Exp/GCD/ModInverse/ModSqrt/Sqrt/Binomial/MulRange, Set*, text/JSON/Gob/Scan/Format, " +
@@ -784,7 +890,7 @@ func runC16(r *mon.Run) {
 		"negative zero, inline words equal |value|, no shared heap big.Int); sequences run in fresh goroutines with deep recursion and GC " +
 		"cycles, and values obtained through MathBigInt must stay stable. A second family makes single calls on operands built on the " +
 		"numeric boundaries of each algorithm (k^2 and its neighbours for Sqrt with k of 1..600 bits, q*y+{0,1,y-1} for the division " +
-		"family, products at the word boundaries, base^n and its neighbours for text conversion). distinct_nontrivial = distinct (method, operand values) that changed a slot."
+		"family, products at the word boundaries, base^n and its neighbours for text conversion); a third compares the printing methods on a nil receiver and the decoders (Gob, text, JSON, SetString) on damaged encodings. distinct_nontrivial = distinct (method, operand values) that changed a slot."
 	r.Assumptions = []string{"math/big.Int is the specification", "calls outside math/big's documented domain (division by zero, negative Sqrt, QuoRem with r aliasing y or z) are skipped"}
 	r.Parallel("sequences", r.N(8000, 1200000), func(t *mon.T) {
 		done := make(chan struct{})
@@ -824,6 +930,8 @@ func runC16(r *mon.Run) {
 		g.GCD(&hx, &cy, apd.NewBigInt(-4), apd.NewBigInt(2))
 		chk("GCD(x heap,y,-4,2).x", &hx)
 	})
+	r.Parallel("nil-and-malformed", r.N(4000, 200000), nilAndMalformedCase)
+	r.Require("nil-and-malformed", 1000)
 	for _, bm := range bigMethods {
 		r.Require("bigint/"+bm.name, 200)
 	}
